@@ -21,15 +21,19 @@ mod ops_cli;
 mod ops_anchors;
 mod ops_arena;
 mod ops_det;
+mod ops_blocks;
 mod ops_c04;
 mod ops_cm;
 mod ops_strleaf;
+mod ops_c06;
 
 pub const COMPONENTS: &[fn(&str, &[String]) -> Option<String>] = &[
     ops_anchors::dispatch,
     ops_arena::dispatch,
     ops_det::dispatch,
+    ops_blocks::dispatch,
     ops_c04::dispatch,
+    ops_c06::dispatch,
     ops_cli::dispatch,
     ops_cm::dispatch,
     ops_strleaf::dispatch,
